@@ -269,7 +269,11 @@ impl Linter {
 
     /// Import words into the dictionary.
     pub fn import_words(&mut self, additional_words: Vec<String>) {
-        let init_len = self.user_dictionary.word_count();
+        // A word can replace an entry that differs from it only by case, which changes the
+        // dictionary without making it grow: look for spellings that are not there yet.
+        let changes_dictionary = additional_words
+            .iter()
+            .any(|word| !self.user_dictionary.contains_exact_word_str(word));
 
         self.user_dictionary
             .extend_words(additional_words.iter().map(|word| {
@@ -279,8 +283,8 @@ impl Linter {
                 )
             }));
 
-        // Only synchronize if we added words that were not there before.
-        if self.user_dictionary.word_count() > init_len {
+        // Only synchronize if we added spellings that were not there before.
+        if changes_dictionary {
             self.synchronize_lint_dict();
         }
     }
